@@ -510,6 +510,34 @@ func TestC28(t *testing.T) {
 					rt.Fatalf("C28 violated: header root after %d adds is %x, reference 16-ary tree root is %x (salt=%08x)", l, hdr[l].RootHash, want, salt)
 				}
 			}
+			// A header handed out for a prefix is a value: whoever holds it (a block header, a verifier tree) must
+			// find it unchanged however the accumulator grows afterwards. Private copies of the roots are taken now.
+			type c28Held struct {
+				at   int
+				how  string
+				h    *hexary.MerkleHeader
+				root []byte
+			}
+			var held []c28Held
+			hold := func(at int, how string, h *hexary.MerkleHeader) {
+				if len(held) < 64 || at <= 256 || at == n {
+					held = append(held, c28Held{at, how, h, append([]byte{}, h.RootHash...)})
+				}
+			}
+			checkHeld := func(when string) {
+				for _, x := range held {
+					if x.h.Leaves != int64(x.at) || !bytes.Equal(x.h.RootHash, x.root) {
+						rt.Fatalf("C28 violated: the header obtained by %s at length %d was {leaves %d root %x}; %s it reads {leaves %d root %x} (n=%d salt=%08x pattern %v)",
+							x.how, x.at, x.at, x.root, when, x.h.Leaves, x.h.RootHash, n, salt, patDesc)
+					}
+				}
+			}
+			for i, h := range hdr {
+				if i <= 272 || i == n || i%4096 == 0 {
+					hold(i, "GetMerkleHeader of the first accumulator", h)
+				}
+			}
+			checkHeld("after the first accumulator has grown to its full length")
 			// accumulator B: same sequence, other database, other call pattern
 			envB := c28NewEnv()
 			B := envB.open()
@@ -520,9 +548,12 @@ func TestC28(t *testing.T) {
 					if err != nil || !c28HdrEq(h, hdr[i]) {
 						rt.Fatalf("C28 violated: second accumulator Finalize at %d gives %v err=%v, first had %v", i, h, err, hdr[i])
 					}
+					hold(i, "Finalize of the second accumulator", h)
 				case "header":
 					if h := B.GetMerkleHeader(); !c28HdrEq(h, hdr[i]) {
 						rt.Fatalf("C28 violated: second accumulator header at %d is %v, first had %v", i, h, hdr[i])
+					} else {
+						hold(i, "GetMerkleHeader of the second accumulator", h)
 					}
 				case "reopen":
 					B = envB.open()
@@ -539,6 +570,7 @@ func TestC28(t *testing.T) {
 			if h := B.GetMerkleHeader(); !c28HdrEq(h, hdr[n]) {
 				rt.Fatalf("C28 violated: two accumulators of the same %d hashes differ: %v vs %v (pattern %v)", n, h, hdr[n], patDesc)
 			}
+			checkHeld("after the second accumulator has grown to its full length")
 
 			// proofs against the full-length header
 			c28CheckProofs(rt, rec, envA, A, leaves, allBelow, 6, "full length")
